@@ -202,11 +202,27 @@ func genGun(r *rand.Rand, inst int) string {
 				post = append(post, pick(r, "tT", "ttok", "tZZ"))
 			case x == 9 && r.Intn(3) == 0:
 				post = append(post, "jz=zz")
+			case x == 9:
+				// the same variable from another extractor: the later one overwrites the earlier one
+				post = append(post, pick(r, "htok=X-Tok", "jtok=n"))
 			default:
 				post = append(post, "jtok=tok")
 			}
 		}
-		defs = append(defs, strings.Join([]string{n, method, strings.Join(pre, "|"), strings.Join(uri, "|"), strings.Join(body, "|"), strings.Join(post, "|")}, ":"))
+		fields := []string{n, method, strings.Join(pre, "|"), strings.Join(uri, "|"), strings.Join(body, "|"), strings.Join(post, "|")}
+		if r.Intn(8) == 0 {
+			// extra headers rendered from the same variables; the names url and body are legal header names
+			var xh []string
+			for _, hn := range []string{"url", "body", "x-extra"} {
+				if r.Intn(2) == 0 {
+					xh = append(xh, hn+"="+part(allowErr))
+				}
+			}
+			if len(xh) > 0 {
+				fields = append(fields, strings.Join(xh, "|"))
+			}
+		}
+		defs = append(defs, strings.Join(fields, ":"))
 	}
 	nsc := 1 + r.Intn(3)
 	ws := genWeights(r, nsc, false)
